@@ -284,6 +284,10 @@ def threshold_classes(metric, vals):
             if v < m < vals[i + 1]:
                 out.append(m)
     out.append(hi + 1.0 if dec else (hi + 1.0) / 2.0 if hi < 1 else 1.5)
+    # the legal end points of the threshold range themselves (0 is falsy, 1 is the identical-masks boundary)
+    out.append(0.0)
+    if not dec:
+        out.append(1.0)
     # dedupe, keep order
     seen = set()
     res = []
